@@ -1225,7 +1225,14 @@ func (self *LockManager) ProcessRecoverLockData(lock *Lock) {
 	}
 	recoverData, recoverValue := lock.data.recoverData, lock.data.recoverValue
 
-	switch currentData.commandType {
+	commandType := currentData.commandType
+	if recoverValue == nil {
+		switch commandType {
+		case protocol.LOCK_DATA_COMMAND_TYPE_INCR, protocol.LOCK_DATA_COMMAND_TYPE_APPEND, protocol.LOCK_DATA_COMMAND_TYPE_SHIFT, protocol.LOCK_DATA_COMMAND_TYPE_PUSH:
+			commandType = protocol.LOCK_DATA_COMMAND_TYPE_PIPELINE
+		}
+	}
+	switch commandType {
 	case protocol.LOCK_DATA_COMMAND_TYPE_SET:
 		if recoverData == nil {
 			self.currentData = NewLockManagerDataUnsetData(false)
